@@ -166,7 +166,7 @@ segmentation x caller read plan), run through send() on a scripted transport; no
     }
 
     fn cases_per_worker(tier: Tier) -> u32 {
-        tier.pick(1500, 20_000)
+        tier.pick(1500, 60_000)
     }
 
     fn strategy(tier: Tier) -> BoxedStrategy<Case> {
